@@ -140,7 +140,70 @@ impl IoUring {
 #[verifier::external_body]
 pub struct FileArc { _p: () }
 #[verifier::external_body]
+#[derive(Clone, Copy)]
 pub struct FileIdentity { _p: () }
+// the process-wide registry of files whose io_uring write outcome is indeterminate (io.rs INDETERMINATE_FILES)
+pub uninterp spec fn registered(id: FileIdentity) -> bool;
+impl FileArc {
+    pub uninterp spec fn identity(&self) -> FileIdentity;
+    pub uninterp spec fn raw_fd(&self) -> i32;
+    #[verifier::external_body]
+    pub fn as_raw_fd(&self) -> (r: i32)
+        ensures r == self.raw_fd(),
+    {
+        unimplemented!()
+    }
+    // Arc::clone of the file handle
+    #[verifier::external_body]
+    pub fn clone(&self) -> (r: FileArc)
+        ensures r.identity() == self.identity(), r.raw_fd() == self.raw_fd(),
+    {
+        unimplemented!()
+    }
+}
+// file_identity(file.as_ref())   (device + inode from the file's metadata)
+#[verifier::external_body]
+pub fn file_identity_of(file: &FileArc) -> (r: Result<FileIdentity>)
+    ensures r matches Ok(id) ==> id == file.identity(),
+{
+    unimplemented!()
+}
+#[verifier::external_body]
+pub fn file_is_indeterminate(identity: FileIdentity) -> (r: bool)
+    ensures r == registered(identity),
+{
+    unimplemented!()
+}
+// IoUring::builder().setup_sqpoll(idle).build(entries).ok(): a fresh ring - the kernel holds none of our submissions
+#[verifier::external_body]
+pub fn ring_build(idle_ms: u32, entries: u32) -> (r: Option<IoUring>)
+    ensures r matches Some(rg) ==> forall|u: u64| !rg.holds(u),
+{
+    unimplemented!()
+}
+// Probe::new + register_probe + is_supported(Read) && is_supported(Write)
+#[verifier::external_body]
+pub fn ring_supports_rw(r: &IoUring) -> bool { unimplemented!() }
+pub struct U64Cell { pub v: Ghost<u64>, pub c: Kernel }
+impl U64Cell {
+    pub open spec fn val(&self) -> u64 { self.v@ }
+    #[verifier::external_body]
+    pub fn new(v: u64) -> (r: U64Cell)
+        ensures r.val() == v,
+    {
+        unimplemented!()
+    }
+}
+pub struct UsizeCell { pub v: Ghost<usize>, pub c: Kernel }
+impl UsizeCell {
+    pub open spec fn val(&self) -> usize { self.v@ }
+    #[verifier::external_body]
+    pub fn new(v: usize) -> (r: UsizeCell)
+        ensures r.val() == v,
+    {
+        unimplemented!()
+    }
+}
 pub struct FlagCell { pub v: Ghost<bool>, pub c: Kernel }
 impl FlagCell {
     pub open spec fn val(&self) -> bool { self.v@ }
@@ -150,11 +213,19 @@ impl FlagCell {
     {
         unimplemented!()
     }
+    #[verifier::external_body]
+    pub fn new(v: bool) -> (r: FlagCell)
+        ensures r.val() == v,
+    {
+        unimplemented!()
+    }
 }
 pub struct DiskIO {
     pub ring: Option<IoUring>,
     pub next_user_data: u64,
     pub write_indeterminate: FlagCell,
+    pub journal_generation: U64Cell,
+    pub journal_slot: UsizeCell,
     pub file_identity: FileIdentity,
     pub _file: FileArc,
     pub fd: i32,
